@@ -12,7 +12,7 @@ RULE = ('cases = 5 base models (pair with custom form + table form + [Species]; 
         'other sections: x, y, xy, interpolation, element and pair labels, a formula signature) x {no, one, three} unused extra variables x '
         '{direct, nested: a variable defined through another variable, ${SECTION:KEY} cross references incl. one that itself contains a placeholder}; '
         'oracle: parsed lists and output bytes identical to those of the literally substituted file; non-trivial = at least one literal lifted or one extra variable')
-RULE += "; structured cases: variable chains with overrides of the base variable, same-section references (also shadowing a like-named variable), override values containing placeholders and '=', a compound variable used twice in one entry, twelve sibling placeholders each defined through another, a parameter-store section reached through a nested placeholder, every value written on the line after its key"
+RULE += "; structured cases: variable chains with overrides of the base variable, same-section references (also shadowing a like-named variable), override values containing placeholders and '=', a compound variable used twice in one entry, twelve sibling placeholders each defined through another, a parameter-store section reached through a nested placeholder, every value written on the line after its key, one value mixing a bare name with a cross-section reference that uses the same bare name"
 ASSUMPTIONS = [
     'relational oracle: the substituted file is rendered by the generator from the same template, parsed and tabulated by the same implementation',
     'variable names avoid the characters the placeholder syntax cannot carry (":", "}", "$")',
@@ -196,6 +196,10 @@ STRUCTURED.append(('a parameter store section whose keys are named like [Variabl
 STRUCTURED.append(('a cross-section reference whose target uses a bare name of ITS section, which in turn uses another bare name of that section',
                    '[Variables]\nscale : 1.0e3\nA : 11.0\n\n[Buck]\nscale : 2.0e3\nA : ${scale}\nparams : ${A} 0.3 32.0\n\n' + _P + '[Pair]\nO-O : as.buck ${Buck:params}\nU-O : as.buck ${scale} 0.3 ${A}\n',
                    _P + '[Pair]\nO-O : as.buck 2.0e3 0.3 32.0\nU-O : as.buck 1.0e3 0.3 11.0\n', []))
+STRUCTURED.append(('ONE value holding a bare ${NAME} and a ${SECTION:KEY} reference whose target uses the same bare name of its own section (both orders, repeated)',
+                   '[Variables]\nscale : 2.0\n\n[Fragments]\nscale : 5.0\ntail : as.polynomial 0.0 ${scale}\n\n' + _P +
+                   '[Pair]\nO-O : sum(as.constant ${scale}, ${Fragments:tail})\nU-O : sum(${Fragments:tail}, as.constant ${scale})\nU-U : sum(as.constant ${scale}, ${Fragments:tail}, as.constant ${scale}, ${Fragments:tail})\n',
+                   _P + '[Pair]\nO-O : sum(as.constant 2.0, as.polynomial 0.0 5.0)\nU-O : sum(as.polynomial 0.0 5.0, as.constant 2.0)\nU-U : sum(as.constant 2.0, as.polynomial 0.0 5.0, as.constant 2.0, as.polynomial 0.0 5.0)\n', []))
 STRUCTURED.append(('the same with names that exist only in the referenced section',
                    '[Buck]\nbase : 2.0e3\nA : ${base}\nparams : ${A} 0.3 32.0\n\n' + _P + '[Pair]\nO-O : as.buck ${Buck:params}\nU-O : as.lj 0.2 2.5\n',
                    _P + '[Pair]\nO-O : as.buck 2.0e3 0.3 32.0\nU-O : as.lj 0.2 2.5\n', []))
